@@ -553,3 +553,19 @@ m('c18-pow10-recursive-split', ['C18', 'C01'], 'ten_to_the_uint:returns-10^k', [
 m('c18-pow10-boundary-remainder', ['C18', 'C01'], 'ten_to_the_uint:returns-10^k', [
   ('src/arithmetic/mod.rs', "    if rem == 0 {\n        res\n    } else {\n        res * 10u64.pow(rem as u32)", "    if rem <= 1 {\n        res\n    } else {\n        res * 10u64.pow(rem as u32)")],
   '10^k is ten times too small when k >= 590 and k % 16 == 1')
+m('c07-with-prec-sign-blind', ['C07'], 'with_prec|get_rounding_term', [
+  ('src/lib.rs', """                // round on the magnitude of the remainder, away from zero
+                let r = r.abs();
+
+                // check for "leading zero" in remainder term; otherwise round
+                if p < 10 * &r {
+                    if self.int_val.is_negative() {
+                        q -= get_rounding_term(&r);
+                    } else {
+                        q += get_rounding_term(&r);
+                    }
+                }""", """                // check for "leading zero" in remainder term; otherwise round
+                if p < 10 * &r {
+                    q += get_rounding_term(&r);
+                }""")],
+  'the original sign-blind with_prec (fixed in b0f6569): negatives truncate')
